@@ -1211,6 +1211,7 @@ fn run_once(cfg: &SyncCfg, ha: &[WOp], hb: &[WOp], limit: usize) -> Result<Once,
                 }
             }
             Some(_) => {
+                let mut reported_false_in_sync = false;
                 if sa != sb {
                     let mut comps: BTreeSet<&str> = BTreeSet::new();
                     for k in &union {
@@ -1222,14 +1223,16 @@ fn run_once(cfg: &SyncCfg, ha: &[WOp], hb: &[WOp], limit: usize) -> Result<Once,
                         }
                     }
                     if !comps.is_empty() {
+                        reported_false_in_sync = true;
                         causes.push((
                             format!("sync false in-sync: digests agree after sync but states differ in {}", primary_class(&comps.into_iter().collect::<Vec<_>>())),
                             format!("{scenario}; {fin_txt}"),
                         ));
                     }
                 }
+                // (if the two sides differ that is already reported above; here: both agree on a wrong value)
                 for k in &union {
-                    if !divergent0.contains(&bucket_of(k, cfg.depth)) {
+                    if reported_false_in_sync || !divergent0.contains(&bucket_of(k, cfg.depth)) {
                         continue;
                     }
                     let e = expected(k);
